@@ -373,6 +373,26 @@ def emit(g):
     return "\n".join(L) + "\n"
 
 
+PIN_NAME = "c43_gate.pin"
+
+
+def pinned_by_other():
+    """A check that runs against a scratch worktree (VERIF_REPO != /repo) pins the generated files it builds
+    from (file .cache/<name>.pin = pid of the check): translators started by anybody else then leave them alone."""
+    pin = os.path.join(VERIF, ".cache", PIN_NAME)
+    try:
+        pid = int(open(pin).read().strip())
+    except (OSError, ValueError):
+        return False
+    if os.environ.get("VERIF_PIN_OWNER") == str(pid):
+        return False
+    try:
+        os.kill(pid, 0)
+    except OSError:
+        return False       # stale pin
+    return True
+
+
 def main():
     out = os.path.join(VERIF, "lean", "MjProof", "Gen")
     args = sys.argv[1:]
@@ -389,6 +409,9 @@ def main():
         sys.exit(3)
     if "--stdout" in args:
         sys.stdout.write(lean)
+        return
+    if out == os.path.join(VERIF, "lean", "MjProof", "Gen") and pinned_by_other():
+        print("%s: generated files are pinned by a running check against a scratch worktree; left untouched" % PIN_NAME[:-4])
         return
     os.makedirs(out, exist_ok=True)
     for name, text in (("MjxGate.lean", lean), ("MjxGate.json", json.dumps(g, indent=1) + "\n")):
